@@ -3,6 +3,7 @@ package eval
 import (
 	"errors"
 	"fmt"
+	"slices"
 
 	"github.com/cedar-policy/cedar-go/internal/consts"
 	"github.com/cedar-policy/cedar-go/internal/extensions"
@@ -735,8 +736,14 @@ func newRecordLiteralEval(elements map[types.String]Evaler) *recordLiteralEval {
 
 func (n *recordLiteralEval) Eval(env Env) (types.Value, error) {
 	vals := types.RecordMap{}
-	for k, en := range n.elements {
-		v, err := en.Eval(env)
+	// evaluate in key order so that the reported error does not depend on map iteration order
+	keys := make([]types.String, 0, len(n.elements))
+	for k := range n.elements {
+		keys = append(keys, k)
+	}
+	slices.Sort(keys)
+	for _, k := range keys {
+		v, err := n.elements[k].Eval(env)
 		if err != nil {
 			return zeroValue(), err
 		}
